@@ -17,13 +17,13 @@ RULE = (
     "polynomial boundary integral of the reference (Fractions for rational data) summed over the boundary curves. "
     "Rational polygons must give the exact rational (type int/Fraction); float polygons 1e-11 relative to the sum "
     "of absolute piece contributions; curved boundaries exact-to-rounding where the integrand degree is within the "
-    "degree of exactness of the documented node count (always for the area), 5e-3 of the absolute contributions "
-    "otherwise (for a+b <= 4; 0.25 beyond), and 1e-9 when nnodes is raised to cover the integrand. An evaluation is one (shape, a, b, entry "
+    "degree of exactness of the documented node count (always for the area), only gross errors (25 % of the absolute "
+    "contributions) otherwise, and 1e-9 when nnodes is raised to cover the integrand. An evaluation is one (shape, a, b, entry "
     "point); it is non-trivial when (a,b) != (0,0) or the shape has several boundary curves or a curved segment."
 )
 MANDATORY = ["kind:simple+", "kind:simple-", "kind:connected+", "kind:connected-", "kind:disjoint+", "kind:disjoint-",
              "exact-rational", "float-polygon", "curved-exact-rule", "curved-quadrature", "curved-raised-nnodes"]
-CONSTANTS = {"float_rel": 1e-11, "quadrature_rel": 5e-3, "raised_rel": 1e-9}
+CONSTANTS = {"float_rel": 1e-11, "quadrature_gross_rel": 0.25, "raised_rel": 1e-9}
 
 
 def _abs_scale(curves, a, b):
@@ -107,10 +107,11 @@ def judge(ctx, case):
                 exact_rule = all(_rule_exact(d, a, b) for d in degs)
                 strata.append("curved-exact-rule" if exact_rule else "curved-quadrature")
                 ctx.evaluated(sub, nontriv, strata)
-                # default-rule accuracy was measured (<= 4.3e-4 of the absolute
-                # contributions for a+b <= 4); beyond that only gross errors
-                # are judged here and the raised-nnodes check decides
-                tol = (1e-11 if exact_rule else (5e-3 if a + b <= 4 else 0.25)) * scale
+                # where the default rule is not exact its error is a property
+                # of the quadrature, not of the implementation (observed up to
+                # 6e-3 of the absolute contributions at a+b = 4 on cubics): only
+                # gross errors are judged here; the raised-nnodes check decides
+                tol = (1e-11 if exact_rule else 0.25) * scale
                 if abs(float(got) - float(ref)) > tol:
                     ctx.violation("integral", "curved-exact" if exact_rule else "curved-quadrature", sub,
                                   "%s(%d,%d) = %r, reference %r, tol %r" % (name, a, b, float(got), float(ref), tol), kind)
